@@ -4,7 +4,9 @@ import (
 	"flag"
 	"fmt"
 	"os"
+	"runtime"
 	"strconv"
+	"strings"
 )
 
 var props = map[string]func(r *run){}
@@ -45,8 +47,40 @@ func main() {
 		os.Exit(3)
 	}
 	r := newRun(prop, *seed, *tier, *out)
-	f(r)
+	func() {
+		// a panic that escapes from a library call made here (every call that may panic is wrapped where it is made) ends
+		// the run: what was observed so far is kept and the panic is reported with the last operation as its input
+		defer func() {
+			if p := recover(); p != nil {
+				lo := r.lastOp
+				if len(lo) > 600 {
+					lo = lo[:600] + "…"
+				}
+				r.violate(violation{What: "a library call that must not panic panicked (the run stopped there)",
+					Input: map[string]any{"last_protocol_line_before": lo, "operations_so_far": r.nOps}, Actual: fmt.Sprint(p) + " | " + firstFrames(8)})
+			}
+		}()
+		f(r)
+	}()
 	r.finish()
+}
+
+// firstFrames: the innermost frames of the panicking goroutine that are not the runtime's
+func firstFrames(n int) string {
+	pcs := make([]uintptr, 48)
+	k := runtime.Callers(3, pcs)
+	fr := runtime.CallersFrames(pcs[:k])
+	var out []string
+	for {
+		f, more := fr.Next()
+		if !strings.HasPrefix(f.Function, "runtime.") && f.Function != "" {
+			out = append(out, fmt.Sprintf("%s:%d", f.Function, f.Line))
+		}
+		if !more || len(out) >= n {
+			break
+		}
+	}
+	return strings.Join(out, " < ")
 }
 
 func flagSet(fs *flag.FlagSet, name string) bool {
